@@ -605,8 +605,57 @@ impl Scenario for Ledger {
             let off = cx.ch.draw("addr.off", (bytes.len() - n) as u64 + 1) as usize;
             guarded(&mut cx.st, "Address::from_bytes", || pallas_addresses::Address::from_bytes(&bytes[off..off + n]).ok())?;
         }
+        // the address field of an output as a torn / garbled transport leaves it: every header type, pointer
+        // varuints with seeded runs of continuation bytes (up to past the u64 range), cut with or without terminator
+        let a = gen_address_field(&mut cx.ch);
+        cx.st.inc("fault.address_field_garbled");
+        guarded(&mut cx.st, "Address::from_bytes", || pallas_addresses::Address::from_bytes(&a).ok())?;
         Ok(())
     }
+}
+
+fn gen_address_field(ch: &mut Choices) -> Vec<u8> {
+    let ty = ch.draw("af.type", 16) as u8;
+    let mut out = vec![(ty << 4) | ch.draw("af.net", 16) as u8];
+    let fill = |ch: &mut Choices, out: &mut Vec<u8>, n: usize| {
+        let b = ch.draw("af.fill", 256) as u8;
+        out.extend(std::iter::repeat(b).take(n));
+    };
+    fill(ch, &mut out, 28);
+    match ty {
+        0..=3 => fill(ch, &mut out, 28),
+        4 | 5 => {
+            for _ in 0..3 {
+                let run = match ch.draw("af.varuint.run", 6) {
+                    0 => 0,
+                    1 => 1,
+                    2 => 8,
+                    3 => 9,
+                    4 => 10,
+                    _ => 10 + ch.draw("af.varuint.more", 8) as usize,
+                };
+                let hi = if ch.chance("af.varuint.ff", 1, 2) { 0xFF } else { 0x80 | ch.draw("af.varuint.bits", 128) as u8 };
+                out.extend(std::iter::repeat(hi).take(run));
+                if ch.chance("af.varuint.cut", 1, 4) {
+                    return out; // torn inside the continuation run
+                }
+                out.push(ch.draw("af.varuint.last", 128) as u8);
+            }
+        }
+        _ => {}
+    }
+    match ch.draw("af.tail", 4) {
+        0 => {
+            let keep = ch.draw("af.truncate", out.len() as u64 + 1) as usize;
+            out.truncate(keep);
+        }
+        1 => {
+            let n = 1 + ch.draw("af.extra", 4) as usize;
+            fill(ch, &mut out, n);
+        }
+        _ => {}
+    }
+    out
 }
 
 
@@ -739,7 +788,7 @@ pub fn def() -> CheckDef {
     let mut required: Vec<&'static str> = vec![
         "fault.bit_flip", "fault.byte_overwrite", "fault.truncation", "fault.splice", "fault.cbor_length_corruption", "fault.garbage_range", "fault.random_bytes", "fault.deep_nesting", "fault.huge_declared_length", "fault.discriminant_rewrite", "fault.foreign_protocol_payload",
         "probe.MultiEraBlock::decode.ok", "probe.MultiEraBlock::decode.err", "probe.MultiEraTx::decode.ok", "probe.MultiEraTx::decode.err", "probe.MultiEraHeader::decode.ok", "probe.MultiEraHeader::decode.err",
-        "probe.MultiEraOutput::decode.reached", "fault.structured_random_payload", "probe.queries_v16::q::DRep.reached", "probe.queries_v16::q::BlockQuery.reached", "probe.Address::from_bytes.ok", "probe.Address::from_bytes.err", "probe.AnyMessage::from_payload.ok",
+        "probe.MultiEraOutput::decode.reached", "fault.structured_random_payload", "probe.queries_v16::q::DRep.reached", "probe.queries_v16::q::BlockQuery.reached", "probe.Address::from_bytes.ok", "fault.address_field_garbled", "probe.Address::from_bytes.err", "probe.AnyMessage::from_payload.ok",
     ];
     for n in NAMES1 {
         required.push(Box::leak(format!("probe.recv1.{n}.ok").into_boxed_str()));
@@ -749,7 +798,7 @@ pub fn def() -> CheckDef {
         prop: "C09",
         level: "exploration",
         batches: vec![batch(Wire1Faults, 12_000, 700_000, true), batch(Wire2Faults, 10_000, 600_000, true), batch(Ledger, 6_000, 300_000, true), batch(LocalStatePayloads, 10_000, 500_000, true)],
-        rule: "a conformant simulated peer streams generated legal messages of every stack-1 / stack-2 protocol (and every block, transaction and header artefact of test_data plus sampled chunk blocks, framed as block-fetch / tx-submission / chain-sync replies) through a corrupting transport: 0..3 faults per stream out of k-bit flips, byte overwrite with CBOR-significant values, range splice (dup/move/delete), truncate-then-EOF, CBOR head/length corruption at real item heads, heads rewritten to declare a huge (2^32 .. 2^64-1) length, garbage ranges, pure random payload, container-nesting runs, payload of another protocol, applied in flight (segment stream incl. headers) or at rest (artefact before framing); real demuxer + typed decoders consume until EOF, decoded stack-2 garbage is fed on into both behaviours, arrived artefacts go through MultiEraBlock/Tx/Header/Output::decode and Address::from_bytes; oracle: no panic in a decode entry point, no process abort (supervised child), runs end by EOF; per-entry-point reached/ok/err counters; non-trivial = completed run with a non-neutral choice; distinct = distinct traces",
+        rule: "a conformant simulated peer streams generated legal messages of every stack-1 / stack-2 protocol (and every block, transaction and header artefact of test_data plus sampled chunk blocks, framed as block-fetch / tx-submission / chain-sync replies) through a corrupting transport: 0..3 faults per stream out of k-bit flips, byte overwrite with CBOR-significant values, range splice (dup/move/delete), truncate-then-EOF, CBOR head/length corruption at real item heads, heads rewritten to declare a huge (2^32 .. 2^64-1) length, garbage ranges, pure random payload, container-nesting runs, payload of another protocol, applied in flight (segment stream incl. headers) or at rest (artefact before framing); real demuxer + typed decoders consume until EOF, decoded stack-2 garbage is fed on into both behaviours, arrived artefacts go through MultiEraBlock/Tx/Header/Output::decode and Address::from_bytes; one generated address field per run (every header type, pointer varuints with seeded continuation runs up to past the u64 range, torn with or without terminator, truncated or over-long) goes through Address::from_bytes; oracle: no panic in a decode entry point, no process abort (supervised child), runs end by EOF; per-entry-point reached/ok/err counters; non-trivial = completed run with a non-neutral choice; distinct = distinct traces",
         real: vec!["MultiEraBlock::decode, MultiEraTx::decode/decode_for_era, MultiEraHeader::decode, MultiEraOutput::decode, Address::from_bytes", "every stack-1 message decoder via Demuxer + ChannelBuffer::recv_full_msg", "stack-2 read_full_msgs + AnyMessage::from_payload", "InitiatorBehavior / ResponderBehavior on decoded garbage"],
         stub: vec!["serving peer and its corrupting transport (simulated)", "socket (SimPipe)"],
         assumptions: vec![
